@@ -33,16 +33,27 @@ import (
 // the file name).
 func sessionTextKey(s *Session, obsKey string) string {
 	var si, di int
+	sk := func(i int) string { return schemaKeyText(s.Schemas[i].Name, s.Schemas[i].Text, cutsOf(s, i), s.SplitSameName) }
 	switch {
 	case strings.HasPrefix(obsKey, "L|"):
 		fmt.Sscanf(obsKey, "L|%d", &si)
-		return "L\x00" + s.Schemas[si].Name + "\x00" + s.Schemas[si].Text
+		return "L\x00" + sk(si)
 	case strings.HasPrefix(obsKey, "Q|"):
 		fmt.Sscanf(obsKey, "Q|%d|%d", &si, &di)
-		return "V\x00" + s.Schemas[si].Name + "\x00" + s.Schemas[si].Text + "\x00\x00" + s.Docs[di]
+		return "V\x00" + sk(si) + "\x00\x00" + s.Docs[di]
 	}
 	fmt.Sscanf(obsKey, "V|%d|%d", &si, &di)
-	return "V\x00" + s.Schemas[si].Name + "\x00" + s.Schemas[si].Text + "\x00" + docName(s, di) + "\x00" + s.Docs[di]
+	return "V\x00" + sk(si) + "\x00" + docName(s, di) + "\x00" + s.Docs[di]
+}
+
+// schemaKeyText: the schema half of a key: name, text and how the text is cut
+// into sources (positions and file names in errors depend on it).
+func schemaKeyText(name, text string, cuts []int, sameName bool) string {
+	k := name + "\x00" + text
+	if len(cuts) > 0 {
+		k += fmt.Sprintf("\x00cuts=%v same=%v", cuts, sameName)
+	}
+	return k
 }
 
 func dropInapplicableRules(s *Session, verbose bool) {
@@ -103,7 +114,7 @@ func runSessionsOracle(sessions []*Session, key *isoKey) (string, *Witness) {
 	}
 	var keyObsd []keyObs
 	if key != nil {
-		keyText = key.Kind + "\x00" + key.SchemaName + "\x00" + key.Schema
+		keyText = key.Kind + "\x00" + schemaKeyText(key.SchemaName, key.Schema, key.Cuts, key.SameName)
 		if key.Kind == "V" {
 			keyText += "\x00" + key.DocName + "\x00" + key.Doc
 		}
@@ -112,6 +123,9 @@ func runSessionsOracle(sessions []*Session, key *isoKey) (string, *Witness) {
 		for _, op := range s.Ops {
 			for _, r := range op.Orders {
 				sites[siteFileLine(r.Site)] = true
+			}
+			if op.Clock != nil {
+				sites["simulated-clock-or-randomness"] = true
 			}
 		}
 		r := runSession(s, false)
@@ -397,7 +411,7 @@ func c10HistoryWitnessMain(args []string) {
 		// the key alone is the witness: load, validate, validate again through
 		// the other entry point, all in one fresh process
 		sess := &Session{Seed: m.Key.Session, Source: "isolated-key", Explicit: true,
-			Schemas: []NamedText{{m.Key.SchemaName, m.Key.Schema}}}
+			Schemas: []NamedText{{m.Key.SchemaName, m.Key.Schema}}, Splits: [][]int{m.Key.Cuts}, SplitSameName: m.Key.SameName}
 		if m.Key.Kind == "L" {
 			sess.Ops = []Op{{Kind: "load", S: 0}, {Kind: "load", S: 0}}
 		} else {
